@@ -1225,6 +1225,10 @@ func newOfficialRoaringIterator(data []byte) (*officialRoaringIterator, error) {
 		// start out pointed at where the offsets would have been.
 		r.currentDataOffset = uint32(offsetOffset)
 	} else {
+		if offsetOffset+int(r.keys*4) > len(data) {
+			return nil, fmt.Errorf("insufficient data for offsets: want %d bytes, got %d",
+				offsetOffset+int(r.keys*4), len(data))
+		}
 		r.offsets = data[offsetOffset : offsetOffset+int(r.keys*4)]
 	}
 	// set key to -1; user should call Next first.
@@ -1313,15 +1317,12 @@ func (r *pilosaRoaringIterator) Next() (key uint64, cType byte, n int, length in
 	// a run container keeps its data after an initial 2 byte length header
 	var runCount uint16
 	if r.currentType == containerRun {
+		if !r.inBounds(runCountHeaderSize) {
+			return r.Current()
+		}
 		runCount = binary.LittleEndian.Uint16(r.data[r.currentDataOffset : r.currentDataOffset+runCountHeaderSize])
 		r.currentDataOffset += 2
 	}
-	if r.currentDataOffset > uint32(len(r.data)) || r.currentDataOffset < headerBaseSize {
-		r.Done(fmt.Errorf("container %d/%d, key %d, had offset %d, maximum %d",
-			r.currentIdx, r.keys, r.currentKey, r.currentDataOffset, len(r.data)))
-		return r.Current()
-	}
-	r.currentPointer = (*uint16)(unsafe.Pointer(&r.data[r.currentDataOffset]))
 	var size int
 	switch r.currentType {
 	case containerArray:
@@ -1333,14 +1334,29 @@ func (r *pilosaRoaringIterator) Next() (key uint64, cType byte, n int, length in
 	case containerRun:
 		r.currentLen = int(runCount)
 		size = r.currentLen * 4
-	}
-	if int64(r.currentDataOffset)+int64(size) > int64(len(r.data)) {
-		r.Done(fmt.Errorf("container %d/%d, key %d, had offset %d+%d size, maximum %d",
-			r.currentIdx, r.keys, r.currentKey, r.currentDataOffset, size, len(r.data)))
+	default:
+		r.Done(fmt.Errorf("container %d/%d, key %d, had unknown type %d",
+			r.currentIdx, r.keys, r.currentKey, r.currentType))
 		return r.Current()
 	}
+	if !r.inBounds(size) {
+		return r.Current()
+	}
+	r.currentPointer = (*uint16)(unsafe.Pointer(&r.data[r.currentDataOffset]))
 	r.lastErr = nil
 	return r.Current()
+}
+
+// inBounds reports whether size bytes (at least one) can be read from the
+// data at the current offset. If not, the iterator is marked as done with
+// an error.
+func (r *baseRoaringIterator) inBounds(size int) bool {
+	if size <= 0 || r.currentDataOffset < headerBaseSize || int64(r.currentDataOffset)+int64(size) > int64(len(r.data)) {
+		r.Done(fmt.Errorf("container %d/%d, key %d, had offset %d+%d size, maximum %d",
+			r.currentIdx, r.keys, r.currentKey, r.currentDataOffset, size, len(r.data)))
+		return false
+	}
+	return true
 }
 
 func (r *officialRoaringIterator) Next() (key uint64, cType byte, n int, length int, pointer *uint16, err error) {
@@ -1366,15 +1382,12 @@ func (r *officialRoaringIterator) Next() (key uint64, cType byte, n int, length 
 	// a run container keeps its data after an initial 2 byte length header
 	var runCount uint16
 	if r.currentType == containerRun {
+		if !r.inBounds(runCountHeaderSize) {
+			return r.Current()
+		}
 		runCount = binary.LittleEndian.Uint16(r.data[r.currentDataOffset : r.currentDataOffset+runCountHeaderSize])
 		r.currentDataOffset += 2
 	}
-	if r.currentDataOffset > uint32(len(r.data)) || r.currentDataOffset < headerBaseSize {
-		r.Done(fmt.Errorf("container %d/%d, key %d, had offset %d, maximum %d",
-			r.currentIdx, r.keys, r.currentKey, r.currentDataOffset, len(r.data)))
-		return r.Current()
-	}
-	r.currentPointer = (*uint16)(unsafe.Pointer(&r.data[r.currentDataOffset]))
 	var size int
 	switch r.currentType {
 	case containerArray:
@@ -1384,6 +1397,18 @@ func (r *officialRoaringIterator) Next() (key uint64, cType byte, n int, length 
 		r.currentLen = 1024
 		size = 8192
 	case containerRun:
+		r.currentLen = int(runCount)
+		size = r.currentLen * 4
+	default:
+		r.Done(fmt.Errorf("container %d/%d, key %d, had unknown type %d",
+			r.currentIdx, r.keys, r.currentKey, r.currentType))
+		return r.Current()
+	}
+	if !r.inBounds(size) {
+		return r.Current()
+	}
+	r.currentPointer = (*uint16)(unsafe.Pointer(&r.data[r.currentDataOffset]))
+	if r.currentType == containerRun {
 		// official format stores runs as start/len, we want to convert, but since
 		// they might be mmapped, we can't write to that memory
 		newRuns := make([]interval16, runCount)
@@ -1393,13 +1418,6 @@ func (r *officialRoaringIterator) Next() (key uint64, cType byte, n int, length 
 			newRuns[i].last += newRuns[i].start
 		}
 		r.currentPointer = (*uint16)(unsafe.Pointer(&newRuns[0]))
-		r.currentLen = int(runCount)
-		size = r.currentLen * 4
-	}
-	if int64(r.currentDataOffset)+int64(size) > int64(len(r.data)) {
-		r.Done(fmt.Errorf("container %d/%d, key %d, had offset %d+%d size, maximum %d",
-			r.currentIdx, r.keys, r.currentKey, r.currentDataOffset, size, len(r.data)))
-		return r.Current()
 	}
 	r.currentDataOffset += uint32(size)
 	r.lastErr = nil
@@ -1512,6 +1530,18 @@ func (b *Bitmap) ImportRoaringBits(data []byte, clear bool, log bool, rowSize ui
 	if itr == nil {
 		return 0, nil, errors.New("failed to create roaring iterator, but don't know why")
 	}
+	// Walk through all the containers once before changing anything, so
+	// that malformed data is rejected as a whole instead of being partially
+	// applied (and not logged).
+	for itrErr == nil {
+		_, _, _, _, _, itrErr = itr.Next()
+	}
+	if itrErr != io.EOF {
+		return 0, nil, itrErr
+	}
+	if itr, err = newRoaringIterator(data); err != nil {
+		return 0, nil, err
+	}
 
 	rowSet = make(map[uint64]int)
 
@@ -1571,8 +1601,9 @@ func (b *Bitmap) ImportRoaringBits(data []byte, clear bool, log bool, rowSize ui
 		b.Containers.Update(itrKey, importUpdater)
 		itrKey, itrCType, itrN, itrLen, itrPointer, itrErr = itr.Next()
 	}
-	// note: if we get a non-EOF err, it's possible that we made SOME
-	// changes but didn't log them. I don't have a good solution to this.
+	// note: the data was checked above, so a non-EOF err is not expected
+	// here; if we do get one, it's possible that we made SOME changes but
+	// didn't log them.
 	if itrErr != io.EOF {
 		return changed, rowSet, itrErr
 	}
@@ -1611,8 +1642,11 @@ func (b *Bitmap) unmarshalPilosaRoaring(data []byte) error {
 
 	// Read key count in bytes sizeof(cookie)+sizeof(flag):(sizeof(cookie)+sizeof(uint32)).
 	keyN := binary.LittleEndian.Uint32(data[3+1 : 8])
-	if uint32(len(data)) < headerBaseSize+keyN*12 {
+	if int64(len(data)) < int64(headerBaseSize)+int64(keyN)*12 {
 		return fmt.Errorf("malformed bitmap, key-cardinality not provided for %d containers", int(keyN)/12)
+	}
+	if int64(len(data)) < int64(headerBaseSize)+int64(keyN)*(12+4) {
+		return fmt.Errorf("malformed bitmap, offsets not provided for %d containers", keyN)
 	}
 
 	headerSize := headerBaseSize
@@ -1643,15 +1677,29 @@ func (b *Bitmap) unmarshalPilosaRoaring(data []byte) error {
 		if c == nil {
 			continue
 		}
+		// Verify the container data is within the bounds of the input data.
+		avail := len(data) - int(offset)
 		switch c.typ() {
 		case containerRun:
+			if avail < runCountHeaderSize {
+				return fmt.Errorf("run count out of bounds: off=%d, len=%d", offset, len(data))
+			}
 			runCount := binary.LittleEndian.Uint16(data[offset : offset+runCountHeaderSize])
+			if runCount == 0 || avail < runCountHeaderSize+int(runCount)*interval16Size {
+				return fmt.Errorf("run container out of bounds: off=%d, runs=%d, len=%d", offset, runCount, len(data))
+			}
 			c.setRuns((*[0xFFFFFFF]interval16)(unsafe.Pointer(&data[offset+runCountHeaderSize]))[:runCount:runCount])
 			opsOffset = int(offset) + runCountHeaderSize + len(c.runs())*interval16Size
 		case containerArray:
+			if avail < int(c.N())*2 {
+				return fmt.Errorf("array container out of bounds: off=%d, n=%d, len=%d", offset, c.N(), len(data))
+			}
 			c.setArray((*[0xFFFFFFF]uint16)(unsafe.Pointer(&data[offset]))[:c.N():c.N()])
 			opsOffset = int(offset) + len(c.array())*2 // sizeof(uint32)
 		case containerBitmap:
+			if avail < bitmapN*8 {
+				return fmt.Errorf("bitmap container out of bounds: off=%d, len=%d", offset, len(data))
+			}
 			c.setBitmap((*[0xFFFFFFF]uint64)(unsafe.Pointer(&data[offset]))[:bitmapN:bitmapN])
 			opsOffset = int(offset) + len(c.bitmap())*8 // sizeof(uint64)
 		}
@@ -4569,8 +4617,10 @@ func (op *op) UnmarshalBinary(data []byte) error {
 		}
 		op.value = 0
 	case opTypeAddRoaring, opTypeRemoveRoaring:
-		if len(data) < int(13+4+op.value) {
-			return fmt.Errorf("op data truncated - expected %d, got %d", 13+op.value, len(data))
+		// Compare in uint64 first: 13+4+op.value may wrap around, or be
+		// negative once converted to int.
+		if op.value > uint64(len(data)) || len(data) < int(13+4+op.value) {
+			return fmt.Errorf("op data truncated - expected %d, got %d", 13+4+op.value, len(data))
 		}
 		op.opN = int(binary.LittleEndian.Uint32(data[13:17]))
 		op.roaring = data[17 : 17+op.value]
@@ -5188,6 +5238,9 @@ func (b *Bitmap) UnmarshalBinary(data []byte) error {
 	}
 	statsHit("Bitmap/UnmarshalBinary")
 	b.opN = 0 // reset opN since we're reading new data.
+	if len(data) < 2 {
+		return errors.New("data too small")
+	}
 	fileMagic := uint32(binary.LittleEndian.Uint16(data[0:2]))
 	if fileMagic == MagicNumber { // if pilosa roaring
 		return errors.Wrap(b.unmarshalPilosaRoaring(data), "unmarshaling as pilosa roaring")
@@ -5244,10 +5297,17 @@ func readOffsets(b *Bitmap, data []byte, pos int, keyN uint32) error {
 		// Map byte slice directly to the container data.
 		citer.Next()
 		_, c := citer.Value()
+		avail := len(data) - int(offset)
 		switch c.typ() {
 		case containerArray:
+			if avail < int(c.N())*2 {
+				return fmt.Errorf("array container out of bounds: off=%d, n=%d, len=%d", offset, c.N(), len(data))
+			}
 			c.setArray((*[0xFFFFFFF]uint16)(unsafe.Pointer(&data[offset]))[:c.N():c.N()])
 		case containerBitmap:
+			if avail < bitmapN*8 {
+				return fmt.Errorf("bitmap container out of bounds: off=%d, len=%d", offset, len(data))
+			}
 			c.setBitmap((*[0xFFFFFFF]uint64)(unsafe.Pointer(&data[offset]))[:bitmapN:bitmapN])
 		default:
 			return fmt.Errorf("unsupported container type %d", c.typ())
@@ -5266,9 +5326,12 @@ func readWithRuns(b *Bitmap, data []byte, pos int, keyN uint32) error {
 		_, c := citer.Value()
 		switch c.typ() {
 		case containerRun:
+			if len(data) < pos+runCountHeaderSize {
+				return fmt.Errorf("run count overruns buffer: len=%d", len(data))
+			}
 			runCount := binary.LittleEndian.Uint16(data[pos : pos+runCountHeaderSize])
-			if len(data) < pos+runCountHeaderSize+int(runCount)*interval16Size {
-				return fmt.Errorf("run container overruns buffer: len=%d", len(data))
+			if runCount == 0 || len(data) < pos+runCountHeaderSize+int(runCount)*interval16Size {
+				return fmt.Errorf("run container overruns buffer: runs=%d, len=%d", runCount, len(data))
 			}
 			// must convert from start:length to start:end, and must not do
 			// that in the caller's (possibly read-only mmapped) buffer.
@@ -5281,9 +5344,15 @@ func readWithRuns(b *Bitmap, data []byte, pos int, keyN uint32) error {
 			c.setRuns(runs)
 			pos += int(runCount)*interval16Size + runCountHeaderSize
 		case containerArray:
+			if len(data) < pos+int(c.N())*2 {
+				return fmt.Errorf("array container overruns buffer: n=%d, len=%d", c.N(), len(data))
+			}
 			c.setArray((*[0xFFFFFFF]uint16)(unsafe.Pointer(&data[pos]))[:c.N():c.N()])
 			pos += int(c.N() * 2)
 		case containerBitmap:
+			if len(data) < pos+bitmapN*8 {
+				return fmt.Errorf("bitmap container overruns buffer: len=%d", len(data))
+			}
 			c.setBitmap((*[0xFFFFFFF]uint64)(unsafe.Pointer(&data[pos]))[:bitmapN:bitmapN])
 			pos += bitmapN * 8
 		}
